@@ -188,7 +188,8 @@ CLAIMED.update({
                 "the written flag, hence -- by ids_as_map -- the same verdict on every document; this covers rules serialised after "
                 "optimisation. On the crate every generated rule (incl. a quoting-sensitive family in value, member, key and example "
                 "position) is serialised with serde_yaml::to_string, re-loaded and compared (trees, examples, verdicts), optimised "
-                "and not, and from_str is compared with from_value (known finding D23).",
+                "and not, and the rule from_value builds from the equivalent YAML value is compared (trees and examples) with the one "
+                "from_str builds from the text, including literal `<<` keys (known finding D23).",
         "note": TB + "PARTIAL by nature: the YAML text layer (quoting/printing/parsing) is serde_yaml's and is not modelled; that it is the identity on the values rules hold is checked on every generated rule, not proved.",
         "technique": "Coq proof (loader invariance under reordering of the identifier map; solver depends on identifiers only as a map) + serialise/reload differential runs on the crate",
     },
